@@ -34,6 +34,15 @@ impl<'a> StepHook for Robust<'a> {
             self.violation = Some(("internal-bug".into(), "internal-bug".into(), format!("step {}: execution returned {state}", pre.step)));
             return false;
         }
+        if matches!(res, StepResult::Continue) && vm.registers()[..] == pre.regs[..] {
+            // nothing moved — not $pc, not the gas: the same instruction runs again forever
+            self.violation = Some((
+                "no-progress".into(),
+                "no-progress".into(),
+                format!("step {}: instruction {:#010x} completed and left every register (including $pc, $cgas, $ggas) unchanged: execution can never terminate", pre.step, pre.word.unwrap_or(0)),
+            ));
+            return false;
+        }
         if self.default_schedule && matches!(res, StepResult::Continue) {
             let g0 = pre.regs[9];
             let g1 = vm.registers()[9];
